@@ -549,14 +549,13 @@ func (t *Tree) allTipNamesRecur(names *[]string, n *Node, parent *Node) {
 	if n == nil {
 		n = t.Root()
 	}
-	// is a tip
+	// is a tip (the root may be a tip too: the traversal then goes on below it)
 	if len(n.neigh) == 1 {
 		*names = append(*names, n.name)
-	} else {
-		for _, child := range n.neigh {
-			if child != parent {
-				t.allTipNamesRecur(names, child, n)
-			}
+	}
+	for _, child := range n.neigh {
+		if child != parent {
+			t.allTipNamesRecur(names, child, n)
 		}
 	}
 }
